@@ -217,7 +217,7 @@ def run(ctx):
     ctx.trusted += ["tools/translate/gen_src.py index_functions (ast -> Gallina over a universal Python value type, fail-closed)",
                     "coq/Ndx/Slice1D.v onnx_bounds/onnx_slice as the semantics of onnxruntime's Slice on one axis (validated: exhaustive 1-D correspondence on every run)",
                     "coq/Ndx/GetItem.v t_select/t_drop/t_unsqueeze as the semantics of ONNX Slice/Gather/Unsqueeze (validated by the in-Coq correspondence)"]
-    ctx.not_discharged += ["boolean masks and integer index arrays: correspondence with NumPy only (the n-D theorem covers tuples of ints, in-bounds slices, None and one Ellipsis)",
+    ctx.not_discharged += ["integer index arrays: correspondence with NumPy only (a single Gather); boolean masks: theorem C08_mask_indexing_is_numpy + in-Coq correspondence, no T-src of getitem_null",
                            "NumPy's error behaviour (out-of-range integer, too many indices): correspondence only; the theorem is about the tuples NumPy accepts"]
     ctx.static_build()
     try:
@@ -228,6 +228,14 @@ def run(ctx):
         ctx.compile("C08_slice_as_written + tie lemmas: the normaliser as written today equals the typed model for every index entry; ellipsis expansion and rank check expressions; composed 1-D theorem", f, kind="theorem")
     except gen_src.Untranslatable as e:
         ctx.obligation("T-src: _index.py / _corearray.py inside the translator's whitelist", False, str(e), "tie")
+    try:
+        (ctx.work / "GenGetItemForm.v").write_text(gen_src.emit_getitem_form(gen_src.getitem_form()))
+        ctx.compile("T-src: GenGetItemForm.v (the tuple-of-scalars path of _opset_extensions.getitem as a form: numbering bases, Gather order, new-axis counting; every other statement must read as transcribed) compiles", ctx.work / "GenGetItemForm.v")
+        f = ctx.work / "TieGetItemForm.v"
+        f.write_text((core.VERIF / "tools/templates/TieGetItemForm.v").read_text())
+        ctx.compile("C08_getitem_nd_as_written: the lowering read off today's source of getitem returns NumPy's result for every tensor, rank and valid tuple of integers / slices / None", f, kind="theorem")
+    except gen_src.Untranslatable as e:
+        ctx.obligation("T-src: _opset_extensions.getitem inside the translator's whitelist", False, str(e), "tie")
     for f in ("ndonnx/_index.py", "ndonnx/_corearray.py", "ndonnx/_opset_extensions.py"):
         ctx.translator_inputs[f] = core.sha256_file(core.REPO / f)
     in_coq_corr(ctx, rnd, 1500 if ctx.tier == "quick" else 12000)
